@@ -102,6 +102,8 @@ M = [
   "FutureGroup::insert does not arm the readiness bit: a member inserted into a reused slot is never polled"),
  ("c04_join_reversed_positions_large", "C04", [(JA, "                    this.items.write(i, value);", "                    this.items.write(if N > 3 { N - 1 - i } else { i }, value);")],
   "array join of more than 3 futures stores outputs at mirrored positions"),
+ ("c04_join_vec_zst_output_len", "C04", [("src/utils/output/vec.rs", "        unsafe { data.set_len(self.capacity) };", "        unsafe { data.set_len(data.capacity()) };")],
+  "OutputVec::take sets the length to the Vec's capacity instead of the recorded one: identical for ordinary outputs, usize::MAX elements for a zero-sized output type (needs children with zero-sized outputs)"),
  ("c05_try_join_keeps_scanning", "C05", [(TA,
   "                            this.state[i].set_none();\n                            unsafe { ManuallyDrop::drop(fut.get_unchecked_mut()) };\n\n                            return Poll::Ready(Err(err));",
   "                            this.state[i].set_none();\n                            unsafe { ManuallyDrop::drop(fut.get_unchecked_mut()) };\n\n                            first_err = Some(err);\n                            readiness = this.wakers.readiness();\n                            continue;"),
